@@ -112,10 +112,24 @@ func genDefect(t *rapid.T) defect {
 		v := rapid.IntRange(0, total-g).Draw(t, "variadicMw")
 		u := total - g - v
 		inGroupUse := rapid.Bool().Draw(t, "useInsideGroup")
-		return defect{"too-many-handlers", fmt.Sprintf("group=%d variadic=%d Route.Use=%d (total %d) useInsideGroup=%v", g, v, u, total, inGroupUse), func(r *rux.Router) {
+		style := rapid.IntRange(0, 3).Draw(t, "regStyle")
+		return defect{"too-many-handlers", fmt.Sprintf("group=%d variadic=%d Route.Use=%d (total %d) useInsideGroup=%v style=%d", g, v, u, total, inGroupUse, style), func(r *rux.Router) {
 			body := func() {
-				rt := r.GET(path, noop, nMw(v)...)
-				rt.Use(nMw(u)...)
+				switch style {
+				case 0: // middleware attached after the route was added
+					rt := r.GET(path, noop, nMw(v)...)
+					rt.Use(nMw(u)...)
+				case 1: // a prepared route: middleware attached before it meets the group
+					rt := rux.NewRoute(path, noop, "GET")
+					rt.Use(nMw(v)...)
+					rt.Use(nMw(u)...)
+					rt.AttachTo(r)
+				case 2:
+					rt := rux.NewNamedRoute("n", path, noop, "GET").Use(nMw(v + u)...)
+					r.AddRoute(rt)
+				default:
+					r.Any(path, noop, nMw(v+u)...)
+				}
 			}
 			switch {
 			case g == 0:
